@@ -11,6 +11,9 @@ checks = {
  "C03": dict(technique="runtime monitoring: generated slice/string programs executed under real /bin/bash, judged by an independent reference interpreter",
    text="Differential runtime monitoring of slice and string operations: all substring index pairs up to length 12, growth/gap-fill for old lengths 0..12, aliasing chains, copy for all length pairs, range forms, plus a random sweep with arbitrary int index expressions.",
    note="Trusted: RefLang interpreter (slices as shared growable vectors), /bin/bash 5.2. Undefined cases (out-of-range, resize while ranging, copy into longer dst) discarded.", ref="§3 C03"),
+ "C17": dict(technique="runtime monitoring: executed write/append/read/exists histories; printed results and a recursive snapshot of the sandbox file system compared with a model file system",
+   text="History monitor against a model file system: single-store cells over 33 path spellings x contents (payloads, every printable character, newlines) x literal/run-time origin x top level/function x literal/computed append flag, and enumerated + random histories of write/append/read/exists over three paths; after each script the complete sandbox (every path, every byte) must equal the model, so a write touching another path is seen.",
+   note="Trusted: RefLang interpreter's file model, sandbox snapshot. Bash only; literal spellings of \" $ ` \\ avoided (C08 finding).", ref="§3 C17"),
  "C14": dict(technique="runtime monitoring: offline checker over a recorded event log of Transpile calls across histories, processes and tree locations (hash equality per program and target)",
    text="History monitor: every ordered pair of (program, target) calls and random histories of 3-15 calls on one transpiler object, the corpus in 8/64 fresh processes and in relocated copies of the source tree (deep path, blanks, relative path); an offline checker over the event log requires one script hash per (program, target); a recording wrapper at the Converter boundary additionally requires identical call traces.",
    note="Trusted: the event log and its checker. A fresh converter per call, as the contract states; error texts compared only as 'is an error'.", ref="§3 C14"),
